@@ -544,7 +544,7 @@ def oracle(case):
     attrs_in = {k: latin(dec_attr(case.get(k))) for k in ("path", "domain", "comment", "samesite")}
     ss = attrs_in["samesite"]
     must_raise = None
-    may_raise = refused_token
+    may_raise = False
     if not is_tok:
         must_raise = "name %r is not a token" % name
     elif isinstance(ss, bytes) and validate and ss.lower() not in (b"strict", b"lax", b"none"):
@@ -572,8 +572,12 @@ def oracle(case):
     if isinstance(secs_arg, list):
         may_raise = True                     # a spelling only int() understands ('1_0', ' 5 '): refused or taken, either way
         secs_arg = secs_arg[1]
-    if isinstance(secs_arg, int) and abs(secs_arg) > 10 ** 10 and value is not None:
-        may_raise = True                     # now+max_age is outside datetime's range: OverflowError, nothing emitted
+    unrepresentable = False                  # now+max_age outside datetime's range (years 1..9999)
+    if isinstance(secs_arg, int) and value is not None:
+        try:
+            datetime.datetime.utcnow() + datetime.timedelta(seconds=secs_arg)
+        except OverflowError:
+            unrepresentable = True
     if case.get("should_raise") or case.get("warnings") == "error":
         # the "future versions will raise" switch / warnings turned into errors: a value or comment that needs
         # quoting may be refused (ValueError / RuntimeWarning) instead of being quoted
@@ -582,7 +586,15 @@ def oracle(case):
                 needs_quote(attrs_in["comment"]):
             may_raise = True
     if isinstance(line, Err):
-        if must_raise or may_raise:
+        if must_raise:
+            return None
+        if refused_token and line.name == "AssertionError":
+            return (KEY_TOKEN_REFUSED, "%s: name %r is a token, but it is refused (AssertionError) because it starts with '$' or spells "
+                    "an attribute name" % (api, name))
+        if unrepresentable and line.name == "OverflowError":
+            return (KEY_DATE_RANGE, "%s(max_age=%r) raises OverflowError: now+max_age is outside datetime's range, so no expires date "
+                    "can be rendered and not even Max-Age is emitted" % (api, case.get("max_age")))
+        if may_raise:
             return None
         return "spurious-raise:" + line.name, "%s(%r) raises %s although everything requested is legal" % (api, case, line.name)
     if must_raise:
@@ -694,7 +706,9 @@ def oracle(case):
 
 
 KEY_NON_UTF8 = "request-cookies:non-utf8-value"
-FINDING_KEYS = {KEY_NON_UTF8}       # keys proposed for KNOWN_FINDINGS.txt: reported under the same key wherever they show up
+KEY_TOKEN_REFUSED = "token-name-refused:dollar-or-attribute-name"
+KEY_DATE_RANGE = "max-age-beyond-datetime-range"
+FINDING_KEYS = {KEY_NON_UTF8, KEY_TOKEN_REFUSED, KEY_DATE_RANGE}       # keys proposed for KNOWN_FINDINGS.txt: reported under the same key wherever they show up
 
 OTHERS = [("a", b"1"), ("b", b"x y"), ("c", b"\xc3\xa9;"), ("z9", b"")]
 
@@ -975,7 +989,7 @@ def run_under_optimize(cases):
                        text=True, cwd=fw.ROOT)
     if p.returncode != 0:
         return [(0, "python-O:harness-error", (p.stderr or p.stdout)[-400:])]
-    return [(i, "python-O:" + k, "under python -O: " + m) for i, k, m in json.loads(p.stdout)]
+    return [(i, k if k in FINDING_KEYS else "python-O:" + k, "under python -O: " + m) for i, k, m in json.loads(p.stdout)]
 
 
 def oracle_any(case):
@@ -1214,8 +1228,10 @@ def run(ctx):
         "cookie_date, i.e. taken in full by the expires alternative of the scanner); both are evaluated in Coq on every date "
         "webob rendered during the run, and the oracle checks format, weekday and value = utcnow()+max_age",
         "with SAMESITE_VALIDATION off a SameSite value must still be a token (it is copied verbatim); anything else must raise",
-        "names that are tokens but start with '$' or spell an attribute name are refused by webob as well (stricter than asked)",
-        "|max_age| small enough for datetime arithmetic (no OverflowError)",
+        "names that are tokens but start with '$' or spell an attribute name are refused by webob as well: reported under "
+        "token-name-refused:dollar-or-attribute-name (proposed known finding; Props: C07_token_names_refused_refuted)",
+        "now+max_age must be a date datetime can hold (years 1..9999); beyond that make_cookie raises OverflowError: reported "
+        "under max-age-beyond-datetime-range (proposed known finding); the model's rendered date is an abstract input",
     ]
     ctx.trusted += [
         "harness/props/c07.py gen(): reading of the alphabets/tables from the live module and the structural comparison of "
